@@ -11,25 +11,38 @@ import (
 // expire without a pending short expiry) is skipped at run time, so the
 // shrinker may delete any element.
 type Step struct {
-	Op  string `json:"op"`            // start cancel put putmany cas del create get getmany list expire
+	Op  string `json:"op"`            // start cancel put putmany cas del create get getmany list expire burst
 	K   int    `json:"k,omitempty"`   // key index
 	Ks  []int  `json:"ks,omitempty"`  // key indices (putmany, getmany)
 	V   string `json:"v,omitempty"`   // cur | stale | unk        (start, cas)
 	E   string `json:"e,omitempty"`   // "" = no expiry | long | past | short
 	W   int    `json:"w,omitempty"`   // waiter index (cancel)
 	Pre bool   `json:"pre,omitempty"` // start with an already cancelled context
+	// burst: the actions B (start cancel put cas del create get; no real-time expiry) are issued back-to-back
+	// without waiting for quiescence in between; one quiescence wait follows
+	B   []Step `json:"b,omitempty"`
+	Par bool   `json:"par,omitempty"` // one goroutine per action, released together (default: one goroutine, in order)
+	P   int    `json:"p,omitempty"`   // GOMAXPROCS while the burst runs (0 = the worker's default)
+	Gap []int  `json:"gap,omitempty"` // busy-wait iterations before action i
 }
 
 // Case is what is written to cases.jsonl and read back by --from.
 type Case struct {
 	ID   uint64 `json:"id"`
-	Kind string `json:"kind"` // mem | poll | stress
+	Kind string `json:"kind"` // mem | poll | stress | race
 	Fam  string `json:"fam,omitempty"`
 	Ops  []Step `json:"ops,omitempty"`
 	// stress only
 	Backend string `json:"backend,omitempty"` // inmem | redis
 	Seed    uint64 `json:"seed,omitempty"`
 	KF      string `json:"kf,omitempty"`
+	// race only (seed as above): a batch of free-running rounds in a process of its own
+	Rounds   int    `json:"rounds,omitempty"`    // at most this many rounds ...
+	BudgetMs int    `json:"budget_ms,omitempty"` // ... within this time (0 = no limit)
+	NW       int    `json:"nw,omitempty"`        // calls per round
+	Procs    int    `json:"procs,omitempty"`     // GOMAXPROCS of the process
+	Pat      string `json:"pat,omitempty"`       // write pattern of every round, or "mix" (chosen per round from the seed)
+	Focus    *int   `json:"focus,omitempty"`     // written by the harness when a round violated: a re-run (--from) repeats that round first
 }
 
 func st(op string, k int) Step { return Step{Op: op, K: k} }
